@@ -5,6 +5,7 @@ import (
 	"sort"
 	"strings"
 
+	"github.com/GuanceCloud/platypus/pkg/ast"
 	"github.com/GuanceCloud/platypus/pkg/engine"
 	plrt "github.com/GuanceCloud/platypus/pkg/engine/runtime"
 	"github.com/GuanceCloud/platypus/pkg/errchain"
@@ -12,6 +13,7 @@ import (
 	"github.com/GuanceCloud/platypus/pkg/parser"
 
 	"verif/internal/drive"
+	"verif/internal/gt"
 	"verif/internal/mon"
 )
 
@@ -293,15 +295,37 @@ func (k c09) Run(c *mon.Ctx, workload string, i int64) {
 				return false
 			}
 			if acc {
-				// every use call bound to the accepted script of that name
-				for _, ce := range ok[name].CallRef {
+				// every use call SITE in the accepted script's tree (not only the
+				// sites the linker's own list mentions) is bound to the accepted
+				// script of that name
+				tree, terr := gt.FromStmts(ok[name].Ast)
+				if terr != nil {
+					c.Violate("accepted-script-without-tree", fmt.Sprintf("%s order %v: %s: %v\n%s", how, order, name, terr, cfg), info)
+					return false
+				}
+				sites := 0
+				bad := ""
+				gt.WalkStmts(tree, func(t *gt.T) {
+					ce, _ := t.Orig.(*ast.CallExpr)
+					if t.K != gt.KCall || t.S != "use" || ce == nil || bad != "" || len(ce.Param) != 1 || ce.Param[0].NodeType != ast.TypeStringLiteral {
+						return
+					}
+					sites++
 					target := ce.Param[0].StringLiteral().Val
 					bound, _ := ce.PrivateData.(*plrt.Script)
 					if bound == nil || bound != ok[target] {
-						c.Violate("use-not-bound", fmt.Sprintf("%s order %v: use(%q) in accepted %s is bound to %v, expected the accepted script object %q\n%s", how, order, target, name, bound, target, cfg), info)
-						return false
+						bad = fmt.Sprintf("%s order %v: use(%q) at offset %d in accepted %s is bound to %v, expected the accepted script object %q\n%s", how, order, target, int(ce.NamePos.Pos), name, bound, target, cfg)
 					}
+				})
+				if bad != "" {
+					c.Violate("use-not-bound", bad, info)
+					return false
 				}
+				if sites != len(calls[name]) {
+					c.Violate("use-sites-lost", fmt.Sprintf("%s order %v: accepted %s has %d use call sites in its tree, its source has %d\n%s", how, order, name, sites, len(calls[name]), cfg), info)
+					return false
+				}
+				c.Count("use_sites_checked", sites)
 			} else if cfg.Scripts[s].Kind == 0 {
 				if d := k.checkChain(cfg, names, calls, s, errs[name]); d != "" {
 					c.Violate("bad-error-chain", fmt.Sprintf("%s order %v: error of %s: %s\n  error: %q\nconfiguration: %s\n%s", how, order, name, d, errs[name].Error(), cfg, srcDump(srcs)), info)
